@@ -22,6 +22,9 @@ mod generated_module;
 pub mod normalization;
 mod query;
 mod type_qualifiers;
+/// Verification hooks.
+#[cfg(graphql_client_verif)]
+pub mod verif;
 
 #[cfg(test)]
 mod tests;
@@ -55,7 +58,29 @@ fn get_set_cached<T: Clone>(
     key: &std::path::Path,
     value_func: impl FnOnce() -> T,
 ) -> T {
+    #[cfg(graphql_client_verif)]
+    let verif_cache = if std::ptr::eq(
+        cache as *const CacheMap<T> as *const (),
+        &*SCHEMA_CACHE as *const CacheMap<Schema> as *const (),
+    ) {
+        "s"
+    } else {
+        "q"
+    };
+    #[cfg(graphql_client_verif)]
+    let mut verif_turn = verif::wait_turn();
     let mut lock = cache.lock().expect("cache is poisoned");
+    #[cfg(graphql_client_verif)]
+    verif_turn.acquired();
+    #[cfg(graphql_client_verif)]
+    let _verif_held = verif::acquired(verif_cache, key);
+    #[cfg(graphql_client_verif)]
+    let value_func = || {
+        verif::emit("LoadBegin", verif_cache, key);
+        let value = value_func();
+        verif::emit("LoadOk", verif_cache, key);
+        value
+    };
     lock.entry(key.into()).or_insert_with(value_func).clone()
 }
 
